@@ -772,9 +772,10 @@ __wrap_readdir(DIR *d)
 	} else if (sd->i < sd->n) {
 		ret = &sd->ents[sd->i++];
 	}
+	int entry_errno = errno;
 	end_step(k, "readdir", ret ? ret->d_name : sd->path, 0, ret ? 1 : 0, e);
-	if (e)
-		errno = e;
+	/* readdir() does not change errno at the end of the directory */
+	errno = e ? e : entry_errno;
 	return ret;
 }
 
